@@ -1279,11 +1279,10 @@ impl Prop for C14 {
     }
     fn cases(&self, tier: Tier, seed: u64) -> CaseSet {
         let mut en: Vec<Value> = (0..(if tier == Tier::Quick { 4u64 } else { 100 })).map(|k| json!({"f": "freshness", "seed": mix(&[seed, 0xC14F, k])})).collect();
-        // the customer's entropy source REPORTS failure at one draw of Ready::start (every scalar
-        // draw in thorough, every fourth in quick): the customer aborts and retries, or sends
+        // the customer's entropy source REPORTS failure at one draw of Ready::start (every draw): the customer aborts and retries, or sends
         // something that must stand on its own
-        let step = if tier == Tier::Quick { 4 } else { 1 };
-        for at in (0..92usize).step_by(step) {
+        let _ = tier;
+        for at in 0..96usize {
             let plan = Plan {
                 seed: mix(&[seed, 0xC14D, at as u64]),
                 merchants: vec!["9001".into()],
